@@ -19,7 +19,8 @@ Bad(e) ==
          \cup { c \in {"RepeatRepeatsResult"}  : ~e.repeat_same }
     [] e.ev = "Mutation" -> { c \in {"ArgumentsUnchanged"} : ~e.args_unchanged }
                             \cup { c \in {"M:GlobalGeneratorUntouchedByDeterministicRoutine"} : "generator_untouched" \in DOMAIN e /\ ~e.generator_untouched }
-                            \cup { c \in {"M:ErrorStateAndWarningFiltersRestored"} : "errstate_restored" \in DOMAIN e /\ ~e.errstate_restored }
+                            \cup { c \in {"M:WarningFiltersRestored"} : "errstate_restored" \in DOMAIN e /\ ~e.errstate_restored }
+                            \cup { c \in {"FloatingPointErrorStateUnchanged"} : "fp_error_state_unchanged" \in DOMAIN e /\ ~e.fp_error_state_unchanged }
     [] e.ev = "Seeded"   -> { c \in {"ReproducibleUnderSeed"} : ~e.same } \cup { c \in {"SeedMatters"} : ~e.differs_other_seed }
     [] e.ev = "Usage"    -> { c \in {"SameAsFreshObject"} : ~e.same }
     [] e.ev = "Returned" -> { c \in {"ResultBelongsToCaller"} : ~e.same }
